@@ -1,6 +1,7 @@
 SPECIFICATION SSpec
 CONSTANTS
   N = 3
+  DomOnly = FALSE
   MaxEntry = 2
 INVARIANT DominantRecovered
 INVARIANT PermutationUnlessZero
